@@ -1,29 +1,19 @@
 /-
 C17, wrap path — facts about the ring as a list of cells: `ringPut` (= the translated
-`service.ringCopy`), `encodeAt`, `readRing`, and the index arithmetic behind "a reservation
-inside `[pseq, cseq + size)` meets no cell of `[cseq, pseq)`".
+`service.ringCopy`: `ringPut_is_source` in `Proofs/WriteWrapRingSource.lean`), `encodeAt`, `readRing`,
+and the index arithmetic behind "a reservation inside `[pseq, cseq + size)` meets no cell of
+`[cseq, pseq)`".  Model side only: not built from the regenerated translation.
 -/
 import Mqtt.Model.WriteWrap
-import Mqtt.Proofs.XlateRingCopy
+import Mqtt.Proofs.RingCopied
 
 namespace Mqtt.Proofs.WriteWrap
 open Mqtt.Model.WriteWrap
-open Mqtt.Generated.Xlate
 
-/-! ## `ringPut` is the translated `ringCopy` -/
+/-! ## `ringPut` is `copied` (which the translated `ringCopy` returns: `WriteWrapRingSource`) -/
 
 theorem ringPut_eq_copied (dst src : List UInt8) (s : Nat) :
     ringPut dst src s = Mqtt.Proofs.XlateRingCopy.copied dst src s := rfl
-
-/-- what `service.ringCopy(ring, src, pos & mask)` — the translation of the Go function,
-regenerated on every check — returns is the model's `ringPut`, for every loop budget ≥ 3 -/
-theorem ringPut_is_source (fuel : Nat) (hf : 3 ≤ fuel) (size : Nat) (hsz : 0 < size)
-    (ring src : List UInt8) (pos : Nat) (hlen : ring.length = size) (hS : src.length ≤ size) :
-    Service.ringCopy fuel ring src ((pos % size : Nat) : Int) =
-      Res.ok (ringPut ring src (pos % size), src.length) := by
-  have hlt : pos % size < size := Nat.mod_lt _ hsz
-  rw [ringPut_eq_copied]
-  exact Mqtt.Proofs.XlateRingCopy.ringCopy_eq fuel hf ring src (pos % size) (by omega) (by omega) (by omega)
 
 theorem ringPut_spec (size : Nat) (hsz : 0 < size) (ring src : List UInt8) (pos : Nat)
     (hlen : ring.length = size) (hS : src.length ≤ size) :
@@ -32,14 +22,10 @@ theorem ringPut_spec (size : Nat) (hsz : 0 < size) (ring src : List UInt8) (pos 
     (∀ p : Nat, (∀ j : Nat, j < src.length → p ≠ (pos + j) % size) →
       (ringPut ring src (pos % size))[p]? = ring[p]?) := by
   have hlt : pos % size < size := Nat.mod_lt _ hsz
-  obtain ⟨dst', hr, hl, hw, hu⟩ := Mqtt.Proofs.XlateRingCopy.ringCopy_spec 3 (Nat.le_refl _) ring src
-    ((pos % size : Nat) : Int) (by omega) (by omega) (by omega) (by omega)
-  rw [ringPut_is_source 3 (Nat.le_refl _) size hsz ring src pos hlen hS] at hr
-  have hd : dst' = ringPut ring src (pos % size) := by
-    injection hr with h; exact (Prod.mk.inj h).1.symm
-  subst hd
-  have hmod : ∀ j : Nat, (((pos % size : Nat) : Int).toNat + j) % ring.length = (pos + j) % size := by
-    intro j; rw [Int.toNat_natCast, hlen, Nat.mod_add_mod]
+  obtain ⟨hl, hw, hu⟩ := Mqtt.Proofs.XlateRingCopy.copied_spec ring src (pos % size) (by omega) (by omega)
+  rw [ringPut_eq_copied]
+  have hmod : ∀ j : Nat, (pos % size + j) % ring.length = (pos + j) % size := by
+    intro j; rw [hlen, Nat.mod_add_mod]
   refine ⟨by omega, ?_, ?_⟩
   · intro j hj; rw [← hmod j]; exact hw j hj
   · intro p hp; apply hu; intro j hj; rw [hmod j]; exact hp j hj
